@@ -182,6 +182,100 @@ fn collateral_amount(c: &Case, t: &Value) -> Option<Case> {
     c.resign();
     Some(c)
 }
+/// collateral exactly one lovelace below the required share: the largest `paid` with 100*paid < fee*pct
+fn collateral_boundary(c: &Case, t: &Value) -> Option<Case> {
+    if !plutus_wit(t) || c.input_refs(13).len() != 1 {
+        return None;
+    }
+    let pct = t["pp"]["collPct"].as_u64()?;
+    let need = c.fee() as u128 * pct as u128; // 100 * paid must reach this
+    if need == 0 {
+        return None;
+    }
+    let paid = ((need - 1) / 100) as u64;
+    let mut c = c.clone();
+    let u = c.utxo_index_of(13, 0)?;
+    if c.utxo[u].role != "coll" {
+        return None; // the collateral input is also spent: changing it would unbalance the transaction
+    }
+    let ret = match c.body().get(16) {
+        Some(o @ Cb::Map(..)) => o.get(1).map(val_coin).unwrap_or(0),
+        Some(o) => o.items().and_then(|i| i.get(1)).map(val_coin).unwrap_or(0),
+        None => 0,
+    };
+    val_set_coin(c.utxo_value_mut(u)?, paid.checked_add(ret)?);
+    if c.body().get(17).is_some() {
+        c.body_mut().set(17, Cb::uint(paid));
+        c.resign();
+    }
+    Some(c)
+}
+/// output 0 holds one lovelace less than the floor of the minimum-ada rule (the rest goes to a sibling output
+/// or the fee); `datum`: the output also carries a datum hash, which Alonzo charges for
+fn min_ada_floor(c: &Case, t: &Value, datum: bool) -> Option<Case> {
+    if c.is_byron() || c.n_outputs() == 0 {
+        return None;
+    }
+    if datum && !matches!(c.era.as_str(), "alonzo" | "babbage" | "conway") {
+        return None;
+    }
+    let unit = crate_big(&t["pp"]["coinsPerByte"])?;
+    let units = t["pp"]["minAdaUnits"].as_u64()? + if datum { t["pp"]["dhUnits"].as_u64()? } else { 0 };
+    let floor = unit.checked_mul(units)?;
+    if floor == 0 {
+        return None;
+    }
+    let mut c = c.clone();
+    // pick an ada-only output so that only the ada amount decides
+    let n = c.n_outputs();
+    let i = (0..n).find(|i| matches!(c.clone().out_value_mut(*i), Some(Cb::UInt(..))))?;
+    let coin = c.out_coin(i);
+    let target = floor - 1;
+    val_set_coin(c.out_value_mut(i)?, target);
+    if datum {
+        let o = c.body_mut().get_mut(1)?.items_mut()?.get_mut(i)?;
+        match o {
+            Cb::Map(es, _) => {
+                es.retain(|(k, _)| k.as_u64() != Some(2));
+                es.push((Cb::uint(2), Cb::array(vec![Cb::uint(0), Cb::bytes(&[0x11u8; 32])])));
+            }
+            _ => {
+                let it = o.items_mut()?;
+                it.truncate(2);
+                it.push(Cb::bytes(&[0x11u8; 32]));
+            }
+        }
+    }
+    if datum {
+        c.pad_fee(2000); // the datum hash makes the transaction 34 bytes larger
+    }
+    // keep value preserved: the difference goes to another output, or to the fee
+    let diff = coin as i128 - target as i128;
+    if let Some(j) = (0..n).find(|j| *j != i) {
+        let other = c.out_coin(j) as i128 + diff;
+        if other <= 0 {
+            return None;
+        }
+        val_set_coin(c.out_value_mut(j)?, other as u64);
+    } else {
+        let f = c.fee() as i128 + diff;
+        if f < 0 {
+            return None;
+        }
+        c.set_fee(f as u64);
+    }
+    c.resign();
+    Some(c)
+}
+fn min_ada_floor_plain(c: &Case, t: &Value) -> Option<Case> {
+    min_ada_floor(c, t, false)
+}
+fn min_ada_floor_datum(c: &Case, t: &Value) -> Option<Case> {
+    min_ada_floor(c, t, true)
+}
+fn crate_big(v: &Value) -> Option<u64> {
+    pv_core::big_from_json(v).parse::<u64>().ok()
+}
 fn collateral_annotation(c: &Case, t: &Value) -> Option<Case> {
     if !plutus_wit(t) || !matches!(c.era.as_str(), "babbage" | "conway") {
         return None;
@@ -305,6 +399,8 @@ const TABLE: &[(&str, &str, Mutator)] = &[
     ("ValidityUpper", "slot-after-ttl", validity_upper),
     ("ValidityLower", "slot-before-start", validity_lower),
     ("MinAda", "output-coin-0", min_ada),
+    ("MinAda", "output-coin=floor-1", min_ada_floor_plain),
+    ("MinAda", "datum-hash-output-coin=floor-1", min_ada_floor_datum),
     ("ValueSize", "max-value-size-0", value_size),
     ("OutNetwork", "output-address-other-network", out_network),
     ("TxNetwork", "body-network-id-other", tx_network),
@@ -313,6 +409,7 @@ const TABLE: &[(&str, &str, Mutator)] = &[
     ("CollateralKind", "collateral-script-locked", collateral_kind),
     ("CollateralAssets", "collateral-with-assets", collateral_assets),
     ("CollateralAmount", "collateral-1-lovelace", collateral_amount),
+    ("CollateralAmount", "collateral=required-1", collateral_boundary),
     ("CollateralAnnotation", "total-collateral+1", collateral_annotation),
     ("MintPolicy", "mint-unknown-policy", mint_policy),
     ("ScriptWitness", "scripts-removed", script_witness),
